@@ -204,6 +204,9 @@ def run(chk, scratch):
         pad_world_variant(w, dv, 1)
         variants.append(("v1-reordered", dv, []))
         variants.append(("v0-high-memory", d0, ["--high_memory"]))
+        # the same run killed right after its first chromosome was marked as collected and then resumed (-t 1): the alignments of a read on
+        # chromosomes collected before and after the kill compete exactly as in an uninterrupted run
+        variants.append(("v0-killed-resumed", d0, ["KILL"] + (["--high_memory"] if wi % 2 else [])))
         if thorough:
             dv2 = os.path.join(scratch, "w%d_v2" % wi)
             pad_world_variant(w, dv2, 2)
@@ -213,6 +216,13 @@ def run(chk, scratch):
             name, d, extra = v
             out = os.path.join(d, "out_" + name)
             ev = out + "_ev"
+            if extra[:1] == ["KILL"]:
+                r1 = pipeline.run(d, out, threads=1, extra=extra[1:], home=out + "_home", mon=["crash"],
+                                  cfg={"crash_root": out, "crash_path": "_collected", "crash_path_k": 1, "crash_after": True}, events=ev + "_kill")
+                if r1["rc"] != 137:
+                    return v, out, ev, dict(r1, rc=None)
+                r = runner.run_isoquant(["--resume", "-o", out], out + "_home", mon=["resolve"], events=ev)
+                return v, out, ev, r
             r = pipeline.run(d, out, threads=2, extra=extra, home=out + "_home", mon=["resolve"], events=ev)
             return v, out, ev, r
         per_variant = {}
@@ -311,7 +321,7 @@ def run(chk, scratch):
                     compared += 1
                     a = set((c, e, i) for c, e, i, t in base[0].get(rid, ()))
                     b = set((c, e, i) for c, e, i, t in recs.get(rid, ()))
-                    kind = "memory-mode" if "high-memory" in name and "reordered" not in name else "chromosome-order"
+                    kind = "memory-mode" if "high-memory" in name and "reordered" not in name else ("kill-and-resume" if "killed" in name else "chromosome-order")
                     if a != b:
                         chk.violation("retained-alignments-depend-on-%s" % kind,
                                       "world=%d: read %s retained %s in v0 but %s in %s" % (seed, rid, sorted(a)[:3], sorted(b)[:3], name),
